@@ -92,8 +92,11 @@ def _gp_summary(srch):
         canon([(str(e.trial_id), canon(e.metrics)) for e in state.trials_evaluations]),
         canon(sorted(str(x) for x in state.failed_trials)),
         canon(sorted((str(p.trial_id), repr(getattr(p, "resource", None))) for p in state.pending_evaluations)),
-        canon(sorted((k, repr(v)) for k, v in srch.model_parameters().items())),
     ]
+    try:
+        parts.append(canon(sorted((k, repr(v)) for k, v in srch.model_parameters().items())))
+    except AssertionError:      # multi-fidelity model not completed before the first suggest
+        parts.append("model:unconfigured")
     rs = getattr(srch, "_random_searcher", None)
     if rs is not None:
         parts.append(canon(sorted(rs._excl_list.excl_set)))
@@ -103,6 +106,14 @@ def _gp_summary(srch):
 class C06World(World):
     """World whose digest replaces the surrogate-model sub-graph of GP searchers (block names carry process-global
     counters) by (remaining initial points, RNG state, TuningJobState content, model parameters)."""
+
+    NONE_LIMIT = 2   # 'until exhaustion + 2': no further suggest events after the second None
+
+    def enabled(self):
+        evs = super().enabled()
+        if self.oracles and self.oracles[0].n_none >= self.NONE_LIMIT:
+            evs = [e for e in evs if e[0] != "S"]
+        return evs
 
     def digest(self):
         srch = getattr(self.s, "searcher", None)
@@ -146,6 +157,7 @@ class SuggestionOracle(Oracle):
         # history of new-trial suggestions: (trial id, hp config, origin)
         self.new = []
         self.n_drawn = 0     # number of searcher-drawn suggestions so far
+        self.n_none = 0
 
     # -- validity of one configuration
     def _valid(self, cfg, origin):
@@ -305,6 +317,7 @@ class SuggestionOracle(Oracle):
         if ev[0] != "S" or obs[0] != "suggest":
             return []
         if obs[1] == "none":
+            self.n_none += 1
             return self._on_none(world)
         if obs[1] == "start":
             return self._on_start(world, obs[2], obs[4])
@@ -321,7 +334,7 @@ class SuggestionOracle(Oracle):
         return []
 
     def digest(self):
-        return repr((self.n_drawn, [(t, sorted(h.items(), key=lambda x: x[0]), o) for t, h, o in self.new]))
+        return repr((self.n_drawn, self.n_none, [(t, sorted(h.items(), key=lambda x: x[0]), o) for t, h, o in self.new]))
 
 
 def _n_distinct(space, cfgs):
@@ -338,7 +351,9 @@ def build_world(cfg):
     s = make_scheduler(cfg)
     fam = KINDS[cfg["kind"]]["fam"]
     R = cfg["R"]
-    spec = dict(W=cfg["W"], T=cfg["T"], R=R, table=metric_table(cfg["T"] + 1, R, cfg.get("tv", 0)), brackets=0,
+    # 'script' < R: the training script ends by itself before max_t (trial completes after a CONTINUE decision)
+    Rw = cfg.get("script", R)
+    spec = dict(W=cfg["W"], T=cfg["T"], R=Rw, table=metric_table(cfg["T"] + 1, R, cfg.get("tv", 0)), brackets=0,
                 max_resource_attr=MRA if fam in ("hb", "dehb") else None, fail_budget=cfg.get("F", 0))
     return C06World(s, spec, [SuggestionOracle(cfg)])
 
@@ -352,6 +367,17 @@ def label(cfg):
 
 
 def task(cfg):
+    import os
+    import time
+    t0 = time.process_time()
+    out = _task(cfg)
+    if os.environ.get("C06_PROFILE"):
+        with open(os.environ["C06_PROFILE"], "a") as f:
+            f.write(f"{time.process_time() - t0:.2f} {out[0].c.get('states')} {out[0].exhaustive} {label(cfg)}\n")
+    return out
+
+
+def _task(cfg):
     try:
         w = build_world(cfg)
     except Exception as e:  # construction of a documented configuration failed
@@ -367,7 +393,7 @@ def task(cfg):
     return cov, viols
 
 
-def _mk(kind, space, p2e, seed=0, W=1, F=0, R=None, T=None, D=None, tv=0, max_states=None):
+def _mk(kind, space, p2e, seed=0, W=1, F=0, R=None, T=None, D=None, tv=0, max_states=None, script=None):
     fam = KINDS[kind]["fam"]
     if R is None:
         R = 1 if fam == "fifo" else 2
@@ -377,6 +403,8 @@ def _mk(kind, space, p2e, seed=0, W=1, F=0, R=None, T=None, D=None, tv=0, max_st
     cfg = dict(kind=kind, space=space, p2e=p2e, seed=seed, W=W, F=F, R=R, T=T, tv=tv)
     if D is not None:
         cfg["D"] = D
+    if script is not None:
+        cfg["script"] = script
     if max_states is not None:
         cfg["max_states"] = max_states
     return cfg
@@ -385,81 +413,94 @@ def _mk(kind, space, p2e, seed=0, W=1, F=0, R=None, T=None, D=None, tv=0, max_st
 def configs(tier, seed):
     q = tier == "quick"
     out = []
-    seeds = (0, 1) if q else (0, 1, 2, 3)
+    cap = 3000 if q else 40000
 
-    def p2es(space, *names):
-        return [n for n in names if n in ref.P2E[space]]
+    def names(space, *want):
+        return [n for n in want if n in ref.P2E[space]]
 
-    # ---- cheap searchers on finite spaces: until exhaustion (+2 further suggests)
-    for kind in ("fifo-random", "fifo-grid", "fifo-bo-rand", "hb-stop-random", "hb-prom-random"):
-        for space in ("fin6", "fin9", "fin4", "degen", "finlog"):
-            big = ref.space_size(ref.SPACES[space]) > 6
-            for p in p2es(space, "none", "empty", "one-empty", "partial", "dups", "full", "offgrid"):
-                for sd in seeds:
-                    if q and sd > 0 and (big or p in ("empty", "one-empty")):
+    ALLP = ("none", "empty", "one-empty", "partial", "dups", "full", "offgrid", "ongrid")
+
+    # ---- A. finite spaces, explored until the searcher answers None twice (T = size + 2)
+    for kind in ("fifo-random", "fifo-grid", "fifo-bo-rand", "hb-stop-random", "hb-prom-random", "hb-stop-bo-rand",
+                 "hb-prom-bo-rand"):
+        costly = kind.endswith("bo-rand") or kind.startswith("hb")
+        for space in ("fin6", "fin4", "degen", "fin9", "finlog"):
+            size = ref.space_size(ref.SPACES[space])
+            for p in names(space, *ALLP):
+                for sd in (0, 1) if q else (0, 1, 2, 3):
+                    if size > 6:
+                        if sd > (0 if q else 1) or (q and costly and p not in ("none", "partial")):
+                            continue
+                        out.append(_mk(kind, space, p, seed=sd, W=1, F=0 if kind.startswith("hb") else 1, tv=sd % 2,
+                                       max_states=cap))
+                        if not q and not costly:
+                            out.append(_mk(kind, space, p, seed=sd, W=2, F=0, tv=sd % 2, max_states=8000))
                         continue
-                    W, F = (1, 1) if big else (2, 1)
-                    if kind.startswith("hb") and big:
-                        F = 0
-                    out.append(_mk(kind, space, p, seed=sd, W=W, F=F, tv=sd % 2,
-                                   max_states=6000 if q else 60000))
+                    if q:
+                        if sd == 1 and p not in ("partial", "dups", "full"):
+                            continue
+                        wide = sd == 0 and p in ("partial", "dups") and not (costly and kind.endswith("bo-rand"))
+                        out.append(_mk(kind, space, p, seed=sd, W=2 if wide else 1, F=1, tv=sd % 2, max_states=cap))
+                    else:
+                        out.append(_mk(kind, space, p, seed=sd, W=2, F=1, tv=sd % 2, max_states=cap))
+                        if sd == 0:
+                            out.append(_mk(kind, space, p, seed=sd, W=1, F=2, tv=1, max_states=cap))
+    # training script ends before max_t: trials complete after a CONTINUE decision (on_trial_complete path)
+    for kind in ("hb-stop-random", "hb-stop-bo-rand"):
+        for space in ("fin6", "fin4"):
+            for p in names(space, "none", "partial") if q else names(space, "none", "partial", "dups", "full"):
+                out.append(_mk(kind, space, p, seed=0, W=2, F=1, script=1, max_states=cap))
     for space in ("fin6", "fin4"):
-        for p in p2es(space, "partial", "dups"):
-            for sd in seeds[:2]:
-                out.append(_mk("fifo-grid-noshuffle", space, p, seed=sd, W=2, F=1, max_states=6000 if q else 60000))
-                out.append(_mk("fifo-random-dup", space, p, seed=sd, W=2, F=2, T=6, D=12 if q else 16,
-                               max_states=6000 if q else 60000))
+        for p in names(space, "partial", "dups"):
+            for sd in (0,) if q else (0, 1, 2):
+                out.append(_mk("fifo-grid-noshuffle", space, p, seed=sd, W=2, F=1, max_states=cap))
+                out.append(_mk("fifo-random-dup", space, p, seed=sd, W=2, F=2, T=6, D=12 if q else 16, max_states=cap))
     # grid with float dimensions: 3*2*3 = 18 grid points + initial ones
-    for p in p2es("gridf", "none", "empty", "ongrid", "partial"):
-        for sd in seeds[:2]:
-            out.append(_mk("fifo-grid", "gridf", p, seed=sd, W=1, F=1, T=22, max_states=6000 if q else 60000))
-    # ---- infinite / mixed / quantised spaces: validity, typing, initial points, bounded depth
-    for kind in ("fifo-random", "fifo-bo-rand", "hb-stop-random", "hb-prom-random", "pbt", "dehb", "dehb-nopr"):
+    for p in names("gridf", *ALLP):
+        for sd in (0,) if q else (0, 1, 2):
+            out.append(_mk("fifo-grid", "gridf", p, seed=sd, W=1, F=1, T=22, max_states=cap))
+            if not q:
+                out.append(_mk("fifo-grid-noshuffle", "gridf", p, seed=sd, W=2, F=0, T=22, max_states=8000))
+    # ---- B. infinite / mixed / quantised spaces: validity, typing, initial points; depth bound
+    for kind in ("fifo-random", "fifo-bo-rand", "hb-stop-random", "hb-prom-random", "hb-stop-bo-rand", "pbt", "dehb",
+                 "dehb-nopr"):
+        fam = KINDS[kind]["fam"]
         for space in ("inf", "mix", "quant"):
-            for p in p2es(space, "none", "empty", "partial", "dups"):
-                for sd in seeds[:2] if q else seeds:
-                    if q and sd > 0 and p in ("empty",):
+            for p in names(space, *ALLP):
+                for sd in (0, 1) if q else (0, 1, 2, 3):
+                    if q and sd > 0 and p != "partial":
                         continue
-                    fam = KINDS[kind]["fam"]
-                    D = (9 if q else 12) if fam in ("fifo",) else (10 if q else 13)
+                    if q and kind == "hb-stop-bo-rand" and p not in ("none", "partial"):
+                        continue
+                    D = (9 if q else 12) if fam == "fifo" else (10 if q else 13)
                     out.append(_mk(kind, space, p, seed=sd, W=2, F=1, T=5 if q else 6, D=D, tv=sd % 2,
-                                   max_states=4000 if q else 40000))
-    # ---- PBT and DEHB on finite spaces
+                                   max_states=1500 if q else 20000))
+    # ---- C. PBT and DEHB on finite spaces
     for kind in ("pbt", "dehb", "dehb-nopr"):
         for space in ("fin6", "fin4", "fin9", "degen", "finlog"):
-            if kind.startswith("dehb") and space == "fin6" and q:
-                pass
-            for p in p2es(space, "none", "empty", "partial", "dups", "full"):
-                for sd in seeds[:2] if q else seeds:
-                    if q and sd > 0 and p in ("empty", "full"):
+            size = ref.space_size(ref.SPACES[space])
+            for p in names(space, *ALLP):
+                for sd in (0, 1) if q else (0, 1, 2, 3):
+                    if q and sd > 0 and p != "partial":
                         continue
-                    size = ref.space_size(ref.SPACES[space])
                     out.append(_mk(kind, space, p, seed=sd, W=2, F=1, T=min(size + 2, 7), D=12 if q else 16,
-                                   tv=sd % 2, max_states=4000 if q else 40000))
-    # ---- GP searchers with the real BO path (small depth)
-    gp_spaces = ("fin6", "inf") if q else ("fin6", "fin9", "inf", "mix", "degen", "finlog")
+                                   tv=sd % 2, max_states=1500 if q else 20000))
+    # ---- D. GP searchers with the real BO path (model fit + acquisition optimisation), small depth
+    gp_spaces = ("fin6", "inf") if q else ("fin6", "fin9", "fin4", "inf", "mix", "degen", "finlog")
     for kind in ("fifo-bo", "hb-stop-bo", "hb-prom-bo", "hb-stop-hypertune", "hb-prom-hypertune"):
+        fam = KINDS[kind]["fam"]
         for space in gp_spaces:
-            names = ("none", "partial") if q else ("none", "empty", "partial", "dups")
-            for p in p2es(space, *names):
+            for p in names(space, "none", "partial") if q else names(space, "none", "empty", "partial", "dups"):
                 for sd in (0,) if q else (0, 1):
                     if q and kind.endswith("hypertune") and p != "none":
                         continue
-                    fam = KINDS[kind]["fam"]
-                    if fam == "fifo":
-                        D = 9 if q else 12
-                    else:
-                        D = 8 if q else 10
+                    D = (9 if q else 12) if fam == "fifo" else (8 if q else 10)
                     out.append(_mk(kind, space, p, seed=sd, W=2, F=1, T=4 if q else 5, D=D, tv=sd % 2,
-                                   max_states=250 if q else 1500))
-    # ---- GP multi-fidelity searchers in the random phase (fast) at larger depth
-    for kind in ("hb-stop-bo-rand", "hb-prom-bo-rand"):
-        for space in ("fin6", "fin4", "inf"):
-            for p in p2es(space, "none", "partial", "dups", "full"):
-                for sd in seeds[:2]:
-                    size = ref.space_size(ref.SPACES[space])
-                    out.append(_mk(kind, space, p, seed=sd, W=2, F=1, T=(size + 2) if size else 6,
-                                   D=None if size else 12, tv=sd % 2, max_states=5000 if q else 40000))
+                                   max_states=150 if q else 1200))
+    if not q:
+        for kind in ("hb-stop-bo",):
+            for space in ("fin6", "fin4"):
+                out.append(_mk(kind, space, "partial", seed=0, W=2, F=1, T=5, D=10, script=1, max_states=1200))
     # rotate the order only (verdicts do not depend on VERIF_SEED)
     k = (seed * 7) % max(1, len(out))
     return out[k:] + out[:k]
